@@ -22,7 +22,7 @@ CLAIMED = {
             'dictionary over global), and the write/reset/read frames of gamma_method and derived_observable are regenerated from '
             'the source on every run and decided. The Gamma method of the specification applied to c*data is proved to give the same tau_int, window, rho and |c| times the errors (zero-variance guard as explicit hypothesis). Every invariance of the statement is additionally evaluated on the implementation.',
             'Lean kernel; standard axioms; tr_frames (Python ast) trusted to parse; FFT by contract; generator-bounded search.', '5 C03'),
-    'C01': ('Lean 4 theorems: 31 gradient call sites regenerated from obs.py are the analytic derivatives (HasDerivAt); value / replica means / chains / union / range normal form / covariance chain rule of derived_observable; + model/impl correspondence on random operator trees + by-configuration-number oracle',
+    'C01': ('Lean 4 theorems: 31 gradient call sites regenerated from obs.py are the analytic derivatives (HasDerivAt); value / replica means / chains / union / range normal form / covariance chain rule of derived_observable; per-configuration fluctuation formula; two-level = one-shot evaluation in both regimes in which it holds (complete replica sets; full configuration lists with missing replicas); + model/impl correspondence on random operator trees + by-configuration-number oracle',
             'Proof: every hand-written gradient of the overloads (regenerated from the AST each run) is proved to be the derivative of the '
             'translated lambda body on its domain, and the lambda bodies are proved to be the intended functions; the structural part of '
             'derived_observable (value, replica means, chain set, sorted union of configurations, range normal form, chain rule for covariance '
@@ -105,7 +105,7 @@ CLAIMED = {
             'default name seeding (reproducible on repeated calls, consistent between observables of one chain) and the refusal of under-determined '
             'imports are checked on the implementation.',
             'Lean kernel; standard axioms; scipy lstsq in import_bootstrap and numpy default_rng by contract.', '5 C13'),
-    'C06': ('Lean 4 theorems (Cauchy-Schwarz over replicas => |corr| <= 1, Gram form => PSD, permutation conjugation, trace under orthogonal conjugation, Cholesky inverse identity, error band quadratic form, external covariance J1 S J2^T) + model/impl correspondence of covariance() + statement oracle on the implementation',
+    'C06': ('Lean 4 theorems (Cauchy-Schwarz over replicas => |corr| <= 1, Gram form => PSD, permutation conjugation, trace under orthogonal conjugation, Cholesky inverse identity, error band quadratic form, external covariance J1 S J2^T; on the executable model: symmetric, unit diagonal, element bounded by the number of shared ensembles) + model/impl correspondence of covariance() + statement oracle on the implementation',
             'Proof: the algebraic facts the statement rests on are proved for every matrix size, number of replicas and ensembles: the per-ensemble '
             'normalisation sum_r sqrt(g11 g22) bounds the cross term (entries in [-1,1], unit diagonal), identical configurations give a Gram matrix '
             '(positive semi-definite, also after rescaling by the errors), reordering the list conjugates by the permutation, eigenvalue smoothing with '
@@ -113,7 +113,7 @@ CLAIMED = {
             'covariance inputs contribute J1 Sigma J2^T and disjoint ensembles contribute 0. The executable model of covariance() is compared with '
             'pyerrors and every clause of the statement is evaluated on the implementation for each generated list in every order.',
             'Lean kernel; standard axioms; LAPACK eigh / cholesky / solve_triangular by contract (reconstruction residuals measured each run); gamma-method errors are C02; generator-bounded search.', '5 C06'),
-    'C07': ('Lean 4 theorems (Mathlib Matrix: normal equations unique, chi-square decomposition => minimiser, -H^-1 M = GLS sensitivity, row-permutation invariance, priors = augmented rows, dof; executable exact-rational GLS: whatever it returns satisfies the normal equations) + the Lean GLS model run on the data of every generated fit as the closed-form oracle, with per-configuration fluctuations, evaluated on the implementation',
+    'C07': ('Lean 4 theorems (Mathlib Matrix: normal equations unique, chi-square decomposition => minimiser, -H^-1 M = GLS sensitivity, row-permutation invariance, priors = augmented rows, dof; executable exact-rational GLS: assembled from the data sets independently of their order, whatever it returns satisfies the normal equations and is (A^T W A)^-1 A^T W y as Mathlib matrices) + the Lean GLS model run on the data of every generated fit as the closed-form oracle, with per-configuration fluctuations, evaluated on the implementation',
             'Proof: for a model linear in its parameters the normal equations have the unique solution (A^T W A)^-1 A^T W y, chi-square decomposes as '
             'chi2(p*) + |L A (p - p*)|^2 so p* is the minimiser, the implicit-function sensitivity -H^-1 M the code propagates with equals the GLS map '
             '(A^T W A)^-1 A^T W, row permutations leave estimator / sensitivities / chi-square unchanged, priors act as augmented rows and dof counts them; '
@@ -122,7 +122,7 @@ CLAIMED = {
             'all minimisers, num_grad, permuted) is compared with that estimator run on its own design matrix, weights and data: values, every '
             'per-configuration fluctuation by configuration number, every covariance-input gradient, chi-square, dof, p-value, Hotelling t2 p-value.',
             'Lean kernel; standard axioms; scipy least_squares / minimize / iminuit (contract: stationary point, measured), autograd / numdifftools Hessians, scipy.stats chi2 / f by contract; the design matrix, the weights (from pyerrors\' own errors / covariance) and the prior rows are assembled by the harness from the documented model, not by a Lean model of fits.py; the list-matrix model is not connected to the Mathlib Matrix theorems by proof.', '5 C07'),
-    'C08': ('Lean 4 theorems (implicit-function rule algebraically H X + M = 0 => X = -H^-1 M, one-parameter analytic chain rule, block slices of the ODR Hessian, TLS -> ordinary LS limit; executable exact-rational solve: whatever it returns satisfies H X + M = 0) + the rule evaluated on the implementation: Hessian and mixed derivative of an independently coded chi-square at the returned point, the Lean model solves, the result is applied to the data fluctuations by configuration number; shift-and-refit and TLS limit as consequences',
+    'C08': ('Lean 4 theorems (implicit-function rule algebraically H X + M = 0 => X = -H^-1 M, one-parameter analytic chain rule, block slices of the ODR Hessian, TLS -> ordinary LS limit; executable exact-rational solve: whatever it returns satisfies H X + M = 0 and is -H^-1 M as Mathlib matrices) + the rule evaluated on the implementation: Hessian and mixed derivative of an independently coded chi-square at the returned point, the Lean model solves, the result is applied to the data fluctuations by configuration number; shift-and-refit and TLS limit as consequences',
             'Proof: a sensitivity X satisfying the differentiated stationarity condition H X + M = 0 with invertible H is -H^-1 M; in one parameter the '
             'analytic implicit-function derivative follows from the chain rule; the code\'s block slicing of the total-least-squares mixed Hessian selects the '
             'd(p, xhat)/dy and /dx blocks for every n_parms and m; with vanishing abscissa errors the total-least-squares stationarity equations reduce to the '
@@ -144,7 +144,7 @@ CLAIMED = {
             'order, and the jackknife product differs by a second-order remainder. Entries of matmul / inv / det are run through the model of '
             'derived_observable and compared; each identity is evaluated on the implementation in Obs / CObs arithmetic (value and every fluctuation).',
             'Lean kernel; standard axioms; LAPACK and autograd vjps of the linalg functions by contract (identities measured each run); generator-bounded search.', '5 C10'),
-    'C16': ('Lean 4 theorems (Mathlib Matrix: exact N-state spectrum solves the GEVP, projected correlator = exp(-E (t-t0)), Cholesky route equivalence, reversed ascending order, Hankel/Vandermonde factorisation of the pencil method, pruning, symmetrisation; executable model of the GEVP control flow: undefined pattern, state i = LAPACK vector N-1-i, _sort_vectors is a permutation and recovers the reference labelling, refusals, pencil Hankel slicing) + model/impl correspondence with LAPACK decompositions as oracle input + known-spectrum oracle evaluated on the implementation',
+    'C16': ('Lean 4 theorems (Mathlib Matrix: exact N-state spectrum solves the GEVP, projected correlator = exp(-E (t-t0)), Cholesky route equivalence, reversed ascending order, Hankel/Vandermonde factorisation of the pencil method, pruning, symmetrisation; executable model of the GEVP control flow: undefined pattern, state i = LAPACK vector N-1-i, the model determinant is Matrix.det, the true assignment is the only one with non-zero score, _sort_vectors is a permutation and recovers the reference labelling, refusals, pencil Hankel slicing) + model/impl correspondence with LAPACK decompositions as oracle input + known-spectrum oracle evaluated on the implementation',
             'Proof: for G(t) = Psi^T diag(exp(-E t)) Psi with invertible Psi the columns of Psi^-1 solve G(t) v = exp(-E_n (t-t0)) G(t0) v and the projected '
             'correlator is exp(-E_n (t-t0)); the Cholesky route solves the same problem; reversing the ascending order puts the largest eigenvalue first; the '
             'Hankel matrices of a k-exponential signal factor through Vandermonde matrices so the pencil eigenvalues are exp(-E_n); projecting on exact '
